@@ -132,6 +132,10 @@ Theorem average_default_eq : forall a T F B,
   average_default a T F B = average a T F B averager_default_timeav averager_default_chanav averager_default_flagav.
 Proof. intros. apply average_api_eq. Qed.
 
+(* the property: AND of the flags, OR only when asked for - the default is AND *)
+Lemma default_flagav_is_and : averager_default_flagav = false.
+Proof. reflexivity. Qed.
+
 (* ------------------------------------------------------------------ laws of one bin *)
 (* a bin of one sample (factors 1 x 1): the sample comes back; a flagged one with weight 0 *)
 Lemma cq_eta : forall v : cq, (fst v, snd v) = v.
